@@ -212,6 +212,24 @@ func (sr *sourceResolver) parseJ5s(_ context.Context, sourceFilename string, dat
 		return nil, errpos.AddSourceFile(err, sourceFilename, string(data))
 	}
 
+	// The package of a j5s file must match its path from the bundle root.
+	if wantPackage := j5convert.PackageFromFilename(sourceFilename); sourceFile.Package == nil || sourceFile.Package.Name != wantPackage {
+		got := ""
+		if sourceFile.Package != nil {
+			got = sourceFile.Package.Name
+		}
+		err := fmt.Errorf("package %q does not match the file path, expected %q", got, wantPackage)
+		pos := errpos.Position{}
+		if loc := sourceFile.SourceLocations; loc != nil {
+			if pkgLoc, ok := loc.Children["package"]; ok {
+				loc = pkgLoc
+			}
+			pos.Start = errpos.Point{Line: int(loc.StartLine), Column: int(loc.StartColumn)}
+			pos.End = errpos.Point{Line: int(loc.EndLine), Column: int(loc.EndColumn)}
+		}
+		return nil, errpos.AddSourceFile(errpos.AddPosition(err, pos), sourceFilename, string(data))
+	}
+
 	summary, err := j5convert.SourceSummary(sourceFile, ec)
 	if err != nil {
 		return nil, errpos.AddSourceFile(err, sourceFilename, string(data))
